@@ -374,7 +374,8 @@ func (p *Prog) VerifyFunction(fn *ssa.Function, fc *FuncContract, split *int, wa
 			}
 			bindResults(b, sig, r.results)
 			ec := &EvalCtx{e: e, st: r.st, old: fr.oldSt, fr: fr, bind: b, spec: spec, atReturn: true}
-			c, err := ec.evalBool(cl.Expr)
+			budget := conjBudget
+			cs, err := ec.evalConjuncts(cl.Expr, &budget)
 			if err != nil {
 				e.failed = fmt.Errorf("%s:%d: %v", cl.File, cl.Line, err)
 				return false
@@ -383,7 +384,9 @@ func (p *Prog) VerifyFunction(fn *ssa.Function, fc *FuncContract, split *int, wa
 			if lab == "" {
 				lab = fmt.Sprintf("%s%d", prefix, i+1)
 			}
-			e.oblig(r.st, "post", lab+"@"+rlabel, c, r.instr.Pos(), cl.Tags, cl)
+			for ci, c := range cs {
+				e.oblig(r.st, "post", lab+conjSuffix(ci)+"@"+rlabel, c, r.instr.Pos(), cl.Tags, cl)
+			}
 			return true
 		}
 		if fc != nil && fc.Constructs != "" && len(r.results) > 0 && fn.Signature.Results().Len() > 0 {
